@@ -559,6 +559,13 @@ Definition media_type_valid (mt : bytes) : bool :=
       | _ => false
       end
   end.
+(* rules/rules_event_rcv.go OnTime: a time must be the zero value or pass compact_time's
+   Time.Validate. The payload of ETime is the printed form of the time, from which validity cannot
+   be read off; validity is a property of the time VALUE, decided by the go-compact-time dependency.
+   The harness therefore tags the token of a value that Validate rejects with a leading NUL byte
+   (evcoq.go), and the model reads the tag. *)
+Definition time_token_valid (s : bytes) : bool :=
+  match s with 0 :: _ => false | _ => true end.
 (* rules/context_array.go ValidateCustomType *)
 Definition custom_type_ok (ct : N) : bool := ct <=? 4294967295.
 
@@ -603,7 +610,7 @@ Definition rstep (cfg : rcfg) (c : rctx) (e : event) : option (rctx * list event
   | EBigDecimal (Some _) => fwd1 (nonkeyable cfg DT_Float c)
   | ENan _ => fwd1 (nan_ c)
   | EUid b => fwd1 (keyable cfg DT_UID (RkBytes b) c)
-  | ETime s => fwd1 (keyable cfg DT_Time (RkTime s) c)
+  | ETime s => if negb (time_token_valid s) then None else fwd1 (keyable cfg DT_Time (RkTime s) c)
   | EArray t count data =>
       if array_api_ok t then fwd1 (obind (notify_new_object cfg true c) (call_current cfg MArray (array_args t count data))) else None
   | EStringArray t data =>
